@@ -121,3 +121,77 @@ func ZZC01Cut() {
 }
 
 func init() { vn.Register("process.ZZC01Cut", ZZC01Cut) }
+
+// ZZC01CutFwd: the same cut with one forward in between: P provides c : A, F = `fwd self c`
+// provides d : A2 (accepted by the real forward rule, i.e. the real EqualType), Q uses d : A2.
+// Every message must still arrive at a receiver that expects it.
+func ZZC01CutFwd() {
+	k := vn.Param("K", 0)
+	env := types.ZZGenEnv(k, 1)
+	A := types.ZZGenNode(vn.Param("D", 1), vn.Int(0, 3), env.Modes)
+	A2 := types.ZZGenNode(vn.Param("D", 1), vn.Int(0, 3), env.Modes)
+	defs := env.Defs
+	funs := []FunctionDefinition{}
+	genv := &GlobalEnvironment{Types: &defs, FunctionDefinitions: &funs, LogLevels: []LogLevel{}}
+	nmP := zzCutNames{lab: vn.Int(0, 2), l0: vn.Int(0, 2), l1: vn.Int(0, 2)}
+	nmQ := zzCutNames{lab: vn.Int(0, 2), l0: vn.Int(0, 2), l1: vn.Int(0, 2)}
+	pk, qk := vn.Pick(7), vn.Pick(7)
+
+	tU := types.ZZGenNode(0, vn.Int(0, 3), env.Modes)
+	tV := types.ZZGenNode(0, vn.Int(0, 3), env.Modes)
+	var gP []Name
+	switch pk {
+	case 0:
+		gP = []Name{{Ident: "u", Type: tU.T}, {Ident: "v", Type: tV.T}}
+	case 2, 5:
+		gP = []Name{{Ident: "u", Type: tU.T}}
+	}
+	typedP := zzProviderForm(pk, nmP, Name{Ident: "u"}, Name{Ident: "v"}, Name{Ident: "x"}, Name{Ident: "y"}, &zzProbe{accept: true}, &zzProbe{accept: true})
+	vn.Assume(typedP.typecheckForm(produceNameTypesCtx(gP), nil, A.T, env.Env, FunctionTypesEnv{}, genv) == nil)
+
+	typedF := NewForward(Name{IsSelf: true}, Name{Ident: "c"})
+	vn.Assume(typedF.typecheckForm(produceNameTypesCtx([]Name{{Ident: "c", Type: A.T}}), nil, A2.T, env.Env, FunctionTypesEnv{}, genv) == nil)
+
+	provQ := types.ZZGenNode(0, vn.Int(0, 3), env.Modes)
+	gQ := []Name{{Ident: "d", Type: A2.T}}
+	if qk == 1 {
+		gQ = append(gQ, Name{Ident: "w", Type: types.ZZGenNode(0, vn.Int(0, 3), env.Modes).T})
+	}
+	typedQ := zzClientForm(qk, nmQ, Name{Ident: "d"}, Name{Ident: "w"}, Name{Ident: "x"}, Name{Ident: "y"}, &zzProbe{accept: true}, &zzProbe{accept: true})
+	vn.Assume(typedQ.typecheckForm(produceNameTypesCtx(gQ), nil, provQ.T, env.Env, FunctionTypesEnv{}, genv) == nil)
+
+	// ---- execution ----
+	w := zzNewStepWorld(NORMAL_ASYNC)
+	c := w.re.CreateFreshChannel("c")
+	d := w.re.CreateFreshChannel("d")
+	piQ := w.re.CreateFreshChannel("q")
+	rp, rp2, rq, rq2 := &zzTProbe{id: 0}, &zzTProbe{id: 1}, &zzTProbe{id: 2}, &zzTProbe{id: 3}
+	runP := zzProviderForm(pk, nmP, w.ch[0], w.ch[1], Name{Ident: "x"}, Name{Ident: "y"}, rp, rp2)
+	runQ := zzClientForm(qk, nmQ, d, w.ch[2], Name{Ident: "x"}, Name{Ident: "y"}, rq, rq2)
+	// the forward learns the direction from the (typechecked) polarity of what it forwards
+	pol := types.NEGATIVE
+	if pk == 0 || pk == 2 || pk == 4 || pk == 5 {
+		pol = types.POSITIVE // P sends first: 1, ⊗, ⊕, ↓ are positive
+	}
+	cFwd := c
+	cFwd.ExplicitPolarity = &pol
+	runF := NewForward(Name{IsSelf: true}, cFwd)
+	procP := NewProcess(runP, []Name{c}, nil, LINEAR, zzPos())
+	procF := NewProcess(runF, []Name{d}, nil, LINEAR, zzPos())
+	procQ := NewProcess(runQ, []Name{piQ}, nil, LINEAR, zzPos())
+	go runP.Transition(procP, w.re)
+	go runF.Transition(procF, w.re)
+	go runQ.Transition(procQ, w.re)
+	vn.Drain()
+	pReceives := pk == 1 || pk == 3 || pk == 6
+	var resumed int
+	if pReceives {
+		resumed = rp.ran + rp2.ran
+	} else {
+		resumed = rq.ran + rq2.ran
+	}
+	vn.Assert("C01.forwarded-cut-channels-drained", len(c.Channel) == 0 && len(d.Channel) == 0)
+	vn.Assert("C01.forwarded-cut-receiver-resumes-once", resumed == 1)
+}
+
+func init() { vn.Register("process.ZZC01CutFwd", ZZC01CutFwd) }
